@@ -22,9 +22,12 @@ func TestVerif(t *testing.T) {
 		os.Exit(code)
 	case "shard":
 		memWatch()
-		if code := shardMain(t); code != 0 {
-			os.Exit(code)
-		}
+		// always leave through os.Exit: in a race build the testing package would otherwise turn any
+		// race report (they are read from the detector's log and judged by the thread engine) into a
+		// failed test after the shard's report has been written
+		code := shardMain(t)
+		os.Stdout.Sync()
+		os.Exit(code)
 	case "replay":
 		memWatch()
 		os.Exit(replayMain(t))
